@@ -407,7 +407,7 @@ def worker(lines, ctx):
     return out
 
 
-CLAUSE_PROPS = {"wf": ["C14"], "den": ["C01", "C05"], "meta": ["C06"], "coh": ["C17"]}
+CLAUSE_PROPS = {"wf": ["C14"], "den": ["C01", "C05"], "denbag": ["C01"], "denlist": ["C01"], "meta": ["C06"], "coh": ["C17"]}
 
 
 def judge_trees(events, part: Part, family: str, clause_props=CLAUSE_PROPS):
